@@ -70,7 +70,7 @@ class World(object):
         self.http = None
 
 
-def build(cfg, W):
+def build(cfg, W, embedded=False):
     from clastic import Application, Route, Response
     from clastic import errors
     from clastic.middleware import Middleware
@@ -175,6 +175,14 @@ def build(cfg, W):
     routes = [GET('/m', m_get), POST('/m', m_post), ('/t/<n:int>', typed), ('/t/<n:int>/<f:float>', typed)] + sib + [
               Route('/r/<beh>/<pos>/<n>', endpoint, render, middlewares=[mw]),
               Route('/n/<beh>/<pos>/<n>', endpoint, middlewares=[mw])]
+    if embedded:
+        # the routes come from an EMBEDDED application that has an error handler of its own; every error is still rendered by
+        # the serving application's handler (the embedded one's must never show up: it answers 599 to everything)
+        class InnerHandler(errors.ErrorHandler):
+            def render_error(self, request, _error):
+                return errors.HTTPException('rendered by the embedded application', code=599)
+        inner = Application(routes, error_handler=InnerHandler())
+        routes = [('/', inner)]
     if not attrs and cfg.get('sibling'):
         # no custom error renderer: let the framework pick its default handler (as most applications do); re-raising is
         # switched on the way Application.serve() does it.  Other applications' handlers must not be affected by that.
@@ -213,7 +221,8 @@ def one_request(app, W, beh, pos, n, accept, method='GET'):
     code = int(status.split()[0])
     by = 'get' if b'answered-by-get-route' in body else ('post' if b'answered-by-post-route' in body else
                                                             ('typed' if b'answered-by-typed-route' in body else None))
-    return {'k': 'status', 'code': code, 'len': len(body), 'own': W.http.code if W.http else None, 'by': by}
+    return {'k': 'status', 'code': code, 'len': len(body), 'own': W.http.code if W.http else None, 'by': by,
+            'ctype': (dict(hdrs).get('Content-Type') or '').split(';')[0]}
 
 
 def judge(exp, obs):
@@ -271,11 +280,18 @@ def check(run):
     run.add_tlc('ErrPipe emission (simulate, histories of 6)', e2)
     hists = e1.emits + tlc.pick(e2.emits, 400 if quick else 8000, run.seed)
     rng = random.Random(run.seed + 8)
-    reps = 3 if quick else 12
+    reps = 1 if quick else 12
     for hn, h in enumerate(hists):
         for rep in range(reps if len(h['hist']) == 1 else 1):
             W = World()
-            app = build(h['cfg'], W)
+            embedded = (hn + rep) % 3 == 1
+            app = build(h['cfg'], W, embedded)
+            # "an error renderer that itself fails falls back to the DEFAULT rendering of the same error": the reference is the
+            # same application with the stock renderer
+            ref = None
+            if h['cfg']['re'] in ('raises', 'nonresp', 'raiseshttp') and h['cfg']['handler'] != 'reraise':
+                Wr = World()
+                ref = (build(dict(h['cfg'], re='default'), Wr, embedded), Wr)
             patterns_before = [r_.pattern for r_ in app.routes]
             ok = True
             for q in h['hist']:
@@ -285,6 +301,11 @@ def check(run):
                 obs = one_request(app, W, q['beh'], q['pos'], n, accept, method)
                 run.evaluations += 1
                 sig = judge(q['out'], obs)
+                if not sig and ref is not None and obs.get('k') == 'status' and obs.get('code', 0) >= 400:
+                    robs = one_request(ref[0], ref[1], q['beh'], q['pos'], n, accept, method)
+                    if robs.get('k') == 'status' and (robs.get('code'), robs.get('ctype')) != (obs.get('code'), obs.get('ctype')):
+                        sig = 'fallback-is-not-the-default-rendering:%s' % h['cfg']['re']
+                        obs = dict(obs, default_rendering={'code': robs.get('code'), 'ctype': robs.get('ctype')})
                 if q['beh'] not in ('resp', 'ctx'):
                     run.nontrivial.add(json.dumps([h['cfg'], q['beh'], q['pos'], n % 18]))
                 if sig:
@@ -295,7 +316,7 @@ def check(run):
                                   'application %r, request %s at %s (n=%d, Accept=%r, %s): spec %r, observed %r'
                                   % (h['cfg'], q['beh'], q['pos'], n, accept, method, q['out'], obs),
                                   {'leg': 'L2', 'cfg': h['cfg'], 'hist': h['hist'], 'failing': q, 'n': n, 'accept': accept,
-                                   'method': method, 'observed': obs})
+                                   'method': method, 'observed': obs, 'embedded': embedded})
             if [r_.pattern for r_ in app.routes] != patterns_before:
                 ok = False
                 run.violation('routing-table-changed', 'routes changed during a history', {'leg': 'L2', 'cfg': h['cfg']})
@@ -310,7 +331,7 @@ def replay(run, path):
         rp = json.load(f)
     c = rp['case']
     W = World()
-    app = build(c['cfg'], W)
+    app = build(c['cfg'], W, c.get('embedded', False))
     q = c['failing']
     obs = one_request(app, W, q['beh'], q['pos'], c['n'], c['accept'], c['method'])
     sig = judge(q['out'], obs)
